@@ -117,7 +117,7 @@ func checkC17(c *Check, p *Program) {
 				}
 			}
 		}
-		c.Decide(bad == "" && len(sends) >= 1, "C17.O2", FuncName(fn)+" plain-send", pos, fmt.Sprintf("%d plain blocking send(s) on the outbound channel", len(sends)), bad+" / no send found")
+		c.Decide(bad == "" && len(sends) >= 1, "C17.O2", FuncName(fn)+" plain-send", pos, fmt.Sprintf("%d plain blocking send(s) on the outbound channel", len(sends)), "the forwarder does not hand events over by a plain blocking send ("+bad+"): events can overtake each other or be dropped")
 		// at most one send per received message: count along one loop iteration
 		hdrs := loopHeaders(fn)
 		c.Decide(len(hdrs) == 1, "C17.O2", FuncName(fn)+" single-loop", pos, "one receive loop", fmt.Sprintf("%d loops", len(hdrs)))
